@@ -48,6 +48,44 @@ def mismatches (v : Variant) : (oi ni : Nat) → List Op → (old new : List Nat
         original := old.take n, expected := new.take m }
         :: mismatches v (oi + n) (ni + m) rest (old.drop n) (new.drop m)
 
+/-- an operation together with the `old_index` / `new_index` fields `similar` gives it. After its
+compaction pass these auxiliary fields can be stale: an insertion that was shifted across a run of
+identical lines keeps the position it had before (`Delete { new_index }` and `Insert { old_index }`
+in particular). `output_diff_json` copies them as they are. -/
+structure IOp where
+  op : Op
+  oi : Nat
+  ni : Nat
+  deriving DecidableEq, Repr
+
+/-- output_diff_json reading the indices off the operations -/
+def mismatchesI (v : Variant) : List IOp → (old new : List Nat) → List Mismatch
+  | [], _, _ => []
+  | ⟨.equal n, _, _⟩ :: rest, old, new => mismatchesI v rest (old.drop n) (new.drop n)
+  | ⟨.delete n, oi, ni⟩ :: rest, old, new =>
+      { originalStart := oi, originalEnd := oi + n - 1, expectedStart := ni, expectedEnd := ni,
+        original := firstOr v (old.take n), expected := [] }
+        :: mismatchesI v rest (old.drop n) new
+  | ⟨.insert n, oi, ni⟩ :: rest, old, new =>
+      { originalStart := oi, originalEnd := oi, expectedStart := ni, expectedEnd := ni + n - 1,
+        original := [], expected := firstOr v (new.take n) }
+        :: mismatchesI v rest old (new.drop n)
+  | ⟨.replace n m, oi, ni⟩ :: rest, old, new =>
+      { originalStart := oi, originalEnd := oi + n - 1, expectedStart := ni, expectedEnd := ni + m - 1,
+        original := old.take n, expected := new.take m }
+        :: mismatchesI v rest (old.drop n) (new.drop m)
+
+/-- the indices are the running positions (no stale field) -/
+def InOrder : (oi ni : Nat) → List IOp → Bool
+  | _, _, [] => true
+  | oi, ni, x :: rest =>
+      decide (x.oi = oi) && decide (x.ni = ni) &&
+        (match x.op with
+         | .equal n => InOrder (oi + n) (ni + n) rest
+         | .delete n => InOrder (oi + n) ni rest
+         | .insert n => InOrder oi (ni + n) rest
+         | .replace n m => InOrder (oi + n) (ni + m) rest)
+
 /-- the script is a script from `old` to `new`: it tiles both lists, equal runs agree,
 non-equal operations are non-empty -/
 def Valid : List Op → List Nat → List Nat → Bool
